@@ -37,7 +37,7 @@ def iter_job(e, p):
         m = sat_model(e_, True)
         if m is not None: report(e_, 'panic', what='%s iterator panics: %s' % (kind, msg[:150]), vec=[mint(m, x) for x in xs], iter=kind)
     e.hooks['on_panic'] = on_panic; e.hooks['on_bound'] = on_panic
-    items, after = run_iter(e, kind, vec)
+    items, after = run_iter(e, kind, vec, limit=3 ** L + 10)
     # after the run the decided/undecided pattern is fixed by the path condition
     # the code under test normally decides the pattern itself; a position it never looked at is decided here (forks the path)
     dec = [i for i in range(L) if e.branch(z3.ULE(xs[i], 1))]
